@@ -13,8 +13,8 @@ CP = ["none", "pass", "reject", "raise", "odd", "raise0", "lt50", "fpass", "frej
 # truthy / falsy: the checkpoint answers with non-bool values ("x", [0], 1.5 / "", [], None, 0.0);
 # boolraise: it answers with an object whose truth value cannot be taken (`__bool__` raises) - a gate error
 CP_AS = {"fpass": "pass", "freject": "reject", "fraise": "raise", "truthy": "pass", "falsy": "reject", "boolraise": "raise"}
-PR = ["ok", "raise", "raise0"]
-EH = ["none", "ok", "raise", "raise0"]
+PR = ["ok", "raise", "raise0", "zero"]
+EH = ["none", "ok", "raise", "raise0", "zero"]       # zero: returns the falsy signal 0 (a value is a value)
 AMPS = ["1", "2", "4", "1/2", "8", "1/4", "0", "-2"]
 MAXA = ["4", "100", "1", "16", "4", "100", "1/2", "1/4", "0"]
 
@@ -66,7 +66,7 @@ class C19(Prop):
         return {"lines": lines, "note": note}
 
     def _rand_stage(self, rng):
-        return (rng.choice(CP), rng.choice(["ok", "ok", "ok", "raise", "raise0"]), rng.choice(EH), rng.random() < 0.7,
+        return (rng.choice(CP), rng.choice(["ok", "ok", "ok", "raise", "raise0", "raise", "zero"]), rng.choice(EH), rng.random() < 0.7,
                 rng.choice(AMPS))
 
     def generate(self, rng, tier, n):
@@ -138,8 +138,8 @@ class C19(Prop):
 
     def exhaustive(self, tier):
         depth = 2 if tier == "quick" else 3
-        alpha = [(cp, pr, eh, req, "2") for cp in ["none", "pass", "reject", "raise"] for pr in PR for eh in EH
-                 for req in (True, False)]
+        alpha = [(cp, pr, eh, req, "2") for cp in ["none", "pass", "reject", "raise"] for pr in ("ok", "raise", "raise0")
+                 for eh in ("none", "ok", "raise", "raise0") for req in (True, False)]
         cases = []
         for k in range(1, depth + 1):
             for stages in itertools.product(alpha, repeat=k):
@@ -184,6 +184,12 @@ class C19(Prop):
                         c["lines"].insert(1, f"cobserver {cb}")
                         c["lines"] += ["run 2", "stats", "cobserver none", "run 1", "stats"]
                         extra.append(c)
+        # falsy signals (0) out of processors and handlers: a value is a value
+        for halt in (True, False):
+            for s1 in (("none", "zero", "none", True, "2"), ("pass", "raise", "zero", True, "2"), ("pass", "raise0", "zero", False, "2")):
+                for s2 in small:
+                    extra.append(self._case(halt, "4", [s1, s2], 1, "exhaustive falsy signal"))
+                    extra.append(self._case(halt, "4", [s2, s1], 1, "exhaustive falsy signal"))
         par = []
         for halt in (True, False):
             for s1 in small:
@@ -310,12 +316,16 @@ class C19(Prop):
                             seen[:] = saved_seen
                             cshown[:] = saved_cshown
                             depth[0] -= 1
+                elif pr == "zero":
+                    return 0
                 elif pr != "ok":
                     raise fault(pr, "p")
                 return x * 10 + i0 + 1
 
             def ef(e):
                 log.append(f"e{pos()}")
+                if eh == "zero":
+                    return 0
                 if eh != "ok":
                     raise fault(eh, "e")
                 return 7000 + i0
@@ -622,7 +632,8 @@ class C19(Prop):
                               k = int(b[1][4:])
                               x = 1 if k == 1 else k
                           else:
-                              x = (x * 10 + b[5] + 1) if b[1] in ("ok", "nest") else 7000 + b[5]
+                              x = (x * 10 + b[5] + 1) if b[1] in ("ok", "nest") else 0 if b[1] == "zero" or b[2] == "zero" \
+                                  else 7000 + b[5]
                       if fin != f"some:{x}":
                           out.append(Violation("final_output_is_composition", f"some:{x}", fin, idx))
                       if any(CP_AS.get(b[0], b[0]) in ("reject", "raise", "raise0") for b in beh):
